@@ -463,6 +463,12 @@ def exemption_holds(check: Check, q: str, name: str) -> bool:
 
 # ----------------------------------------------------------------------------------------- X4 constant subscripts
 def constant_subscripts(check: Check) -> None:
+    """X4: constant subscripts of `<text>.split()` lists, decided by interpreting each function for every token count 0..4.
+
+    The abstraction of the text is its number of whitespace-separated tokens n: len(list) = n, truthiness of the list and of the
+    (stripped) text = n > 0. Every path on which a subscript `list[k]` is evaluated must have k < n (or -k <= n)."""
+    from ..guards import UNKNOWN, RoleEval, paths
+
     p = check.program
     targets = ["FllImporter.term", "FllImporter.activation", "FllImporter.defuzzifier", "FllImporter.range",
                "FllImporter.extract_key_value", "FllImporter.extract_value", "Discrete.configure"]
@@ -472,22 +478,55 @@ def constant_subscripts(check: Check) -> None:
         check.analysed(fn)
         r = Resolver(p, fn)
         cfg = r.cfg
+
+        def split_of(t: Term) -> Term | None:
+            if t[0] == "call" and t[1][0] == "attr" and t[1][2] == "split":
+                return t
+            return None
+
+        sites = []
         for n in cfg.stmt_nodes():
             for e in cfg.exprs_of(n):
-                for s in ast.walk(e):
-                    if not (isinstance(s, ast.Subscript) and isinstance(s.value, ast.Name) and isinstance(s.ctx, ast.Load)):
+                for x in ast.walk(e):
+                    if isinstance(x, ast.Subscript) and isinstance(x.ctx, ast.Load):
+                        k = const_value(r.term(x.slice, n))
+                        base = r.term(x.value, n)
+                        if isinstance(k, int) and not isinstance(k, bool) and split_of(base) is not None:
+                            sites.append((n, e, x, k, base))
+        if not sites:
+            continue
+        lists = {b for _, _, _, _, b in sites}
+
+        def classify(t: Term, e, lists=lists):
+            if t in lists:
+                return "n"
+            if t[0] == "call" and t[1] == ("global", "len") and len(t[2]) == 1 and t[2][0] in lists:
+                return "n"
+            for L in lists:
+                if t == L[1][1]:  # the text that was split: non-empty (and stripped by the caller) iff it has tokens
+                    return "n"
+            return None
+
+        by_site: dict[int, list] = {}
+        for ntok in range(0, 5):
+            ev = RoleEval(r, classify)
+            env = {"n": ntok}
+            for pa in paths(cfg, [s_ for s_, _ in cfg.entry.succ][0], ev, env, set()):
+                for n, e, x, k, base in sites:
+                    if n not in pa:
                         continue
-                    k = const_value(r.term(s.slice, n))
-                    if not isinstance(k, int) or isinstance(k, bool):
+                    if not _evaluated(e, x, ev, r, n, env):
                         continue
-                    base = r.term(s.value, n)
-                    if not any(c[0] == "call" and c[1][0] == "attr" and c[1][2] == "split" for c in walk(base)):
-                        continue
-                    need = k + 1 if k >= 0 else -k
-                    ok, why = _length_fact(r, cfg, n, s, s.value.id, need)
-                    n_sites += 1
-                    check.require(ok, "X4", f"{q}/{s.value.id}[{k}]", f"`{unparse(s)}` is protected: {why}" if ok else
-                                  f"`{unparse(s)}` can raise IndexError: no guard establishes len({s.value.id}) >= {need}", loc(fn, n))
+                    ok = (k < ntok) if k >= 0 else (-k <= ntok)
+                    by_site.setdefault(id(x), []).append((ntok, ok))
+        for n, e, x, k, base in sites:
+            n_sites += 1
+            res = by_site.get(id(x), [])
+            badn = sorted({nt for nt, ok in res if not ok})
+            name = x.value.id if isinstance(x.value, ast.Name) else unparse(x.value)[:20]
+            check.require(not badn, "X4", f"{q}/{name}[{k}]", f"`{unparse(x)}` is evaluated only when the list is long enough (token counts 0..4 interpreted)" if not badn else
+                          f"`{unparse(x)}` is evaluated when the text has {badn} token(s): IndexError instead of a syntax error", loc(fn, n),
+                          exhaustive=True, cases=5)
     if n_sites == 0:
         raise AnalysisError("X4: no constant subscripts of split() lists found on the import path")
     # the "non-empty and stripped" fact for FllImporter.activation/defuzzifier: every in-package caller on the import path
@@ -499,15 +538,59 @@ def constant_subscripts(check: Check) -> None:
             r = Resolver(p, fn)
             for n, c in r.cfg.all_calls():
                 if isinstance(c.func, ast.Attribute) and c.func.attr == name and r.term(c.func.value, n) == ("param", "self"):
-                    t = r.term(c.args[0], n) if c.args else ("const", None)
-                    stripped = any(s[0] == "call" and s[1] == ("attr", ("param", "self"), "extract_key_value") for s in walk(t))
+                    t = r.term(c, n)
+                    arg = t[2][0] if t[2] else ("const", None)
+                    stripped = any(s_[0] == "call" and s_[1] == ("attr", ("param", "self"), "extract_key_value") for s_ in walk(arg))
                     check.require(stripped, "X4", f"{caller}->{name}", "the value passed comes from extract_key_value (stripped, so split() "
-                                  "of a non-empty value is non-empty)" if stripped else f"passes {show(t)}", loc(fn, n))
+                                  "of a non-empty value is non-empty)" if stripped else f"passes {show(arg)}", loc(fn, n))
     fn = p.func("FllImporter.extract_key_value")
     r = Resolver(p, fn)
     rets = [r.term(n.ast.value, n) for n in r.cfg.stmt_nodes() if isinstance(n.ast, ast.Return) and n.ast.value is not None]
     ok = bool(rets) and all(t[0] == "tuple" and all(x[0] == "call" and x[1][0] == "attr" and x[1][2] == "strip" for x in t[1]) for t in rets)
     check.require(ok, "X4", "FllImporter.extract_key_value/stripped", "key and value are returned stripped", loc(fn))
+
+
+def _evaluated(root: ast.AST, site: ast.AST, ev, r: Resolver, node, env) -> bool:
+    """Is `site` evaluated when `root` is evaluated under env? (conditional expressions and short-circuit operators)"""
+    from ..guards import UNKNOWN
+
+    def contains(a: ast.AST) -> bool:
+        return any(y is site for y in ast.walk(a))
+
+    cur = root
+    while cur is not site:
+        if isinstance(cur, ast.IfExp):
+            if contains(cur.test):
+                cur = cur.test
+                continue
+            v = ev.eval_term(r.term(cur.test, node), env)
+            if contains(cur.body):
+                if v is False:
+                    return False
+                cur = cur.body
+            else:
+                if v is True:
+                    return False
+                cur = cur.orelse
+            continue
+        if isinstance(cur, ast.BoolOp):
+            idx = next(i for i, v_ in enumerate(cur.values) if contains(v_))
+            for u in cur.values[:idx]:
+                v = ev.eval_term(r.term(u, node), env)
+                if v is UNKNOWN:
+                    continue
+                truth = bool(v)
+                if isinstance(cur.op, ast.And) and not truth:
+                    return False
+                if isinstance(cur.op, ast.Or) and truth:
+                    return False
+            cur = cur.values[idx]
+            continue
+        nxt = [c for c in ast.iter_child_nodes(cur) if contains(c)]
+        if not nxt:
+            return True
+        cur = nxt[0]
+    return True
 
 
 def _length_fact(r: Resolver, cfg, n, sub, name: str, need: int) -> tuple[bool, str]:
